@@ -722,7 +722,8 @@ impl Engine for E3 {
                 }
             }
         };
-        let w_flush = if wrapped_buffered.is_some() { 14 } else { 2 };
+        // flush() through a queuing handle must not cost queue room either (C10)
+        let w_flush = if wrapped_buffered.is_some() { 14 } else if focus == "C10" { 10 } else { 2 };
         let sock_full: Vec<usize> = if wrapped_buffered.is_some() && cfg.chance(1, 2) { (0..1 + cfg.usize_below(2)).map(|_| cfg.usize_below(5)).collect() } else { Vec::new() };
         let n_main = prog.usize_below(if deep { 18 } else { 9 });
         let main_ops = gen_prog(&mut prog, n_main, &mut next_id, n_gates, w_clone, w_drop, w_flush);
@@ -1130,6 +1131,24 @@ fn judge(case: &QCase, main: &Option<Obs>, end_tasks: &[TaskInfo], out: &mut Out
     // "the sink keeps accepting metrics" after a panic is C11's as well
     let panic_c10: Vec<&str> = if panics_fired > 0 { vec!["C10", "C11"] } else { vec!["C10"] };
     // ---- C10: emit never waits, result is a function of queue room, capacity never exceeded ----
+    // occupancy counted in METRICS (entries of any other kind a variant may put on the same channel
+    // do not make the queue "hold its capacity"): accepted and not yet taken off by the worker
+    let metric_occ: Vec<(u64, usize)> = {
+        let mut occ: i64 = 0;
+        let mut v = Vec::new();
+        for c in &obs.chan {
+            let is_send = c.op == "try_send" || c.op == "send";
+            if is_send && c.ok && c.payload.starts_with("S:") {
+                occ += 1;
+            } else if c.op == "recv" && c.ok && c.payload.starts_with("S:") {
+                occ -= 1;
+            }
+            v.push((c.step, occ.max(0) as usize));
+        }
+        v
+    };
+    // (several events can carry the same step number: look events up by their position in the log)
+    let occ_before_step = |step: u64| -> usize { metric_occ.iter().filter(|(s, _)| *s <= step).last().map(|(_, o)| *o).unwrap_or(0) };
     for e in obs.prod.iter().filter(|e| e.what == "emit") {
         if e.gate_closed {
             out.probe("emit_while_worker_stalled");
@@ -1143,7 +1162,8 @@ fn judge(case: &QCase, main: &Option<Obs>, end_tasks: &[TaskInfo], out: &mut Out
             out.violate(&["C10"], "queue.emit-not-prompt", format!("emit {} took {} scheduling steps of its own task ({} waits for a lock)", e.s, e.steps, e.lock_waits));
         }
         // the channel event of this emit
-        let ce = obs.chan.iter().find(|c| (c.op == "try_send" || c.op == "send") && c.payload.starts_with("S:") && c.payload[2..] == e.s && c.task == e.task);
+        let ce_idx = obs.chan.iter().position(|c| (c.op == "try_send" || c.op == "send") && c.payload.starts_with("S:") && c.payload[2..] == e.s && c.task == e.task);
+        let ce = ce_idx.map(|i| &obs.chan[i]);
         match (&e.res, ce) {
             (ApiRes::Ok(n), Some(c)) => {
                 if !c.ok {
@@ -1169,8 +1189,9 @@ fn judge(case: &QCase, main: &Option<Obs>, end_tasks: &[TaskInfo], out: &mut Out
                     match case.cap {
                         None => out.violate(&panic_c10, "queue.unbounded-refused", format!("an unbounded queue refused {}: {msg}", e.s)),
                         Some(cap) => {
-                            if c.len_after < cap {
-                                out.violate(&panic_c10, "queue.refused-with-room", format!("emit {} was refused ({msg}) while the queue held {} of {cap}", e.s, c.len_after));
+                            let held = ce_idx.map(|i| metric_occ[i].1).unwrap_or(0);
+                            if held < cap {
+                                out.violate(&panic_c10, "queue.refused-with-room", format!("emit {} was refused ({msg}) while the queue held {held} metric(s) of {cap} ({} entries of any kind)", e.s, c.len_after));
                             }
                         }
                     }
@@ -1183,8 +1204,8 @@ fn judge(case: &QCase, main: &Option<Obs>, end_tasks: &[TaskInfo], out: &mut Out
                 match case.cap {
                     None => out.violate(&panic_c10, "queue.unbounded-refused", format!("an unbounded queue refused {}: {msg}", e.s)),
                     Some(cap) => {
-                        let before = obs.chan.iter().filter(|c| c.step <= e.step_before).last().map(|c| c.len_after).unwrap_or(0);
-                        let during: Vec<usize> = obs.chan.iter().filter(|c| c.step > e.step_before && c.step <= e.step_at).map(|c| c.len_after).collect();
+                        let before = occ_before_step(e.step_before);
+                        let during: Vec<usize> = metric_occ.iter().filter(|(s, _)| *s > e.step_before && *s <= e.step_at).map(|(_, o)| *o).collect();
                         let max_occ = during.iter().copied().chain(std::iter::once(before)).max().unwrap_or(0);
                         if max_occ < cap {
                             out.violate(&panic_c10, "queue.refused-with-room", format!("emit {} was refused ({msg}) while the queue never held more than {max_occ} of {cap} during the call", e.s));
